@@ -31,6 +31,14 @@ def harness(ctx, cases, cfgs, what, ncorrupt=0, timeout=800):
     return r if ctx.need_go_ok(r, what) else None
 
 
+def glue(ctx, cases, what, only=False, timeout=600):
+    env = {"VERIF_IN": cases}
+    if only:
+        env["VERIF_GLUE_ONLY"] = "1"
+    r = ctx.gotest("proxy/tcp", ["proxy/tcp/c10_test.go", "proxy/tcp/c10glue_test.go"], "^TestVerifC10Glue$", env=env, timeout=timeout)
+    return r if ctx.need_go_ok(r, what) else None
+
+
 def take(ctx, r, sub):
     ctx.take_failures(r, sub)
     for e in r.of_kind("modelbug")[:3]:
@@ -50,6 +58,8 @@ def run(ctx):
         "verdict rules: no panic; buffer size <= 5 + record length; whenever crypto/tls accepts the bytes fabio accepts them with the same name; well-formed => first host_name; "
         "a length that overruns its container => rejected.  Grammar violations without overrun (odd cipher list, trailing bytes, wrong type) are counted, not judged",
         "crypto/tls accepts two things the grammar forbids: plaintext records longer than 2^14 and session ids longer than 32 bytes; such input is malformed and fabio may reject it (not judged)",
+        "non-termination: every extraction runs under a watchdog (5 s, tried twice, for a pure function of < 20 KB input); not returning is a violation of 'it is rejected instead'",
+        "glue: SNIProxy.ServeTCP is driven over loopback with well-formed hellos (the specification's and real ones up to ~16 KB) in 1-3 segments; pauses between segments are a hint only, judged are the lookup name and the bytes the upstream receives",
         "hellos spanning several TLS records are outside the statement ('never exceeds the first TLS record') and not judged; only Go's TLS client generates real hellos",
     ]
     sink = os.path.join(ctx.tmp, "c10.gen")
@@ -107,6 +117,23 @@ def run(ctx):
                    "(cases, hellos, every prefix, seeded corruptions); non-trivial = distinct parser paths of the specification + distinct real hellos")
     take(ctx, r, "c10")
 
+    # the glue: SNIProxy.ServeTCP over loopback, hellos in 1-3 segments and up to one full record
+    wfn = [c for c in cases if c["wf"] and c["wfname"]]
+    fglue = os.path.join(ctx.tmp, "c10.glue")
+    vf.write_ndjson(fglue, wfn)
+    rg = glue(ctx, fglue, "C10 glue")
+    if rg is None:
+        return
+    g = rg.summary
+    ctx.log("glue: %d hellos (%d larger than 4096 bytes, %d spread over several records: not judged) offered to SNIProxy.ServeTCP in 1-3 segments: %d connections, %d failed, %d without verdict, %.0fs"
+            % (g["hellos"], g["over4096"], g["fragmented_not_judged"], g["ran"], g["fails"], g["hangs"], rg.wall))
+    ctx.cover("glue", traces_validated_against_impl=g["ran"] - g["hangs"], evaluations=g["evaluations"])
+    if g["over4096"] < 3 or g["ran"] < 100:
+        ctx.inconclusive("glue: too few hellos were offered (%d connections, %d hellos over 4096 bytes)" % (g["ran"], g["over4096"]))
+    for h in rg.of_kind("hang")[:3]:
+        ctx.inconclusive("glue: no verdict: %s" % h.get("msg"))
+    take(ctx, rg, "c10")
+
     # binding self-test: corrupted expectations must be rejected by the harness
     wf = [c for c in cases if c["wf"] and c["wfname"]]
     if not wf:
@@ -129,6 +156,12 @@ def run(ctx):
 def replay(ctx, rp):
     one = os.path.join(ctx.tmp, "c10.replay")
     vf.write_ndjson(one, [rp["replay"]["case"]])
+    if rp["replay"]["case"].get("tpl") == "glue":
+        r = glue(ctx, one, "C10 replay", only=True, timeout=300)
+        if r is not None:
+            ctx.cover(evaluations=r.summary.get("evaluations", 0), traces_validated_against_impl=r.summary.get("ran", 0))
+            take(ctx, r, "c10")
+        return
     r = harness(ctx, one, None, "C10 replay", timeout=300)
     if r is None:
         return
